@@ -114,16 +114,7 @@ Proof.
   apply in_map_iff. exists (Some body). split; [reflexivity|]. eapply nth_error_In. exact Hn.
 Qed.
 
-(** the side condition on the grammar, decidable: for every rule that has a function, the emission fuel covers
-    its body through the rules inlined into it, every name in it stands for a rule that exists and, when not
-    inlined, has a function, no choice is empty, and no rule that is reached refers to the first rule when the
-    emitter would compile it in place (it cannot: the first rule's count includes the parser's own reference) *)
-Definition deep_table_b : bool :=
-  forallb (fun r => implb (reached r && negb (o_inline emit_opts r))%bool
-                          (match nth_error g r with Some RNil | None => true | _ => rdeep g emit_opts once reached fl r end))
-          (seq 0 (length g)).
-
-Theorem emitted_table_ok : deep_table_b = true -> table_ok g ptx emit_opts once used emitted_fn reached fl.
+Theorem emitted_table_ok : deep_table_b g inline = true -> table_ok g ptx emit_opts once used emitted_fn reached fl.
 Proof.
   intros Hd r Hinl Hre (b & Hb & Hne).
   assert (Hon : once (0 + r) = false \/ (r = 0 /\ 0 = 0)).
@@ -132,9 +123,10 @@ Proof.
   exists ko. destruct (srule used fl r ko) as [body lb] eqn:Es. cbn [fst] in Hn. exists body, lb.
   assert (Hn' : nth_error (semit_all g ptx ast inline asu (fun _ => false)) r = Some (Some body)) by exact Hn.
   split; [unfold emitted_fn; rewrite Hn'; reflexivity|]. split; [exact Es|]. split.
-  - unfold deep_table_b in Hd. rewrite forallb_forall in Hd.
+  - unfold deep_table_b in Hd. cbv zeta in Hd. rewrite forallb_forall in Hd.
     assert (Hlt : r < length g) by (apply nth_error_Some; rewrite Hb; discriminate).
-    specialize (Hd r ltac:(apply in_seq; lia)). rewrite Hre, Hinl, Hb in Hd. cbn in Hd. destruct b; [exact Hd|exact Hd|congruence].
+    specialize (Hd r ltac:(apply in_seq; lia)). cbv beta in Hd. fold cr in Hd. cbn [o_inline emit_opts] in Hinl.
+    rewrite Hre, Hinl, Hb in Hd. cbn [andb negb implb] in Hd. fold fl in Hd. destruct b; [exact Hd|exact Hd|congruence].
   - intros j Hj. exact (real_jumps_used r body j Hn' Hj).
 Qed.
 
@@ -143,7 +135,7 @@ Qed.
     in any state under the goto semantics of Model/Exec.v, returns what the machine's rule function returns -
     same verdict, same position, tokens, memo table, text register and action log - and crashes only where the
     machine says the generated code panics. *)
-Theorem emitted_file_sound buf penv : deep_table_b = true ->
+Theorem emitted_file_sound buf penv : deep_table_b g inline = true ->
   forall n r m res, o_inline emit_opts r = false -> reached r = true -> (exists b, nth_error g r = Some b /\ b <> RNil) ->
   rule_fn g emit_opts (run_f g ptx buf penv emit_opts n) r m = Some res ->
   xcall buf penv emit_opts emitted_fn r m res.
@@ -168,7 +160,6 @@ Hypothesis Hsw : good_switches g.
 (** the options of the generator, and the functions it writes under them *)
 Definition gen_asu (r : nat) : bool := nth r (map (fun r => asu_rule g r) (seq 0 (length g))) false.
 Definition gen_fn (inline : bool) : nat -> option (list scode) := emitted_fn g ptx true inline gen_asu.
-Definition gen_deep_b (inline : bool) : bool := deep_table_b g true true inline gen_asu.
 
 Lemma mk_opts_emit memo inline : mk_opts true memo inline g = emit_opts g true memo inline gen_asu.
 Proof. reflexivity. Qed.
@@ -192,10 +183,10 @@ Qed.
     memo / inline setting and entry rule that has a function: whenever the semantics has a result, calling the
     entry's function in a reset parser - the statements of the generated file under the goto semantics of
     Model/Exec.v - returns it: true at the same offset with the derivation's tokens, or false with the error
-    token the semantics gives.  [gen_deep_b] is the decidable side condition on the grammar (see
-    [deep_table_b]); the correspondence run evaluates it for every grammar it generates. *)
+    token the semantics gives.  [deep_table_b] (Model/SEmit.v) is the decidable side condition on the grammar;
+    the correspondence run evaluates it for every grammar it generates. *)
 Theorem generated_code_is_peg memo inline n r st0 rr :
-  gen_deep_b inline = true -> slot_ok g inline r -> reached (count_rules g) r = true ->
+  deep_table_b g inline = true -> slot_ok g inline r -> reached (count_rules g) r = true ->
   peg_parse g ptx buf penv (S n) r = Some rr ->
   exists res, xcall buf penv (mk_opts true memo inline g) (gen_fn inline) r (reset st0) res /\
     match rr with
@@ -206,12 +197,11 @@ Proof.
   intros Hd Hs Hr H. pose proof (entry_fn_correct memo inline n r st0 rr H) as S1.
   assert (Hex : exists b, nth_error g r = Some b /\ b <> RNil).
   { unfold peg_parse in H. cbn [peg_ev] in H. destruct (nth_error g r) as [[b|k|]|]; try discriminate; eexists; (split; [reflexivity|discriminate]). }
-  assert (Hd' : deep_table_b g true memo inline gen_asu = true) by exact Hd.
   destruct rr as [[|p f] evs]; cbn [simr] in S1.
   - destruct S1 as (st' & R & _ & _ & M & _). exists (Ret false st'). split; [|exists st'; split; [reflexivity|exact M]].
-    rewrite mk_opts_emit in *. exact (emitted_file_sound g ptx true memo inline gen_asu buf penv Hd' n r _ _ Hs Hr Hex R).
+    rewrite mk_opts_emit in *. exact (emitted_file_sound g ptx true memo inline gen_asu buf penv Hd n r _ _ Hs Hr Hex R).
   - destruct S1 as (st' & R & P & _ & _ & L & _). exists (Ret true st'). split; [|exists st'; split; [reflexivity|split; [exact P|exact L]]].
-    rewrite mk_opts_emit in *. exact (emitted_file_sound g ptx true memo inline gen_asu buf penv Hd' n r _ _ Hs Hr Hex R).
+    rewrite mk_opts_emit in *. exact (emitted_file_sound g ptx true memo inline gen_asu buf penv Hd n r _ _ Hs Hr Hex R).
 Qed.
 
 End EndToEnd.
